@@ -65,30 +65,41 @@ func (f *globalMaxInflight) add(n int32) int32 {
 }
 
 func (f *globalMaxInflight) SetState(instance string, requestId int64, current int32) (bool, int32, error) {
-	f.lock.RLock()
-	state, ok := f.instanceStates[instance]
-	f.lock.RUnlock()
-
 	if current < 0 {
-		if ok {
-			f.lock.Lock()
-			delete(f.instanceStates, instance)
-			f.add(-state.count)
-			f.lock.Unlock()
-			current = 0
-		}
-		return false, -1, nil
-	} else if !ok || state == nil {
+		// remove the instance: the lookup and the removal happen in the same
+		// critical section, so that racing removals subtract its count only once
 		f.lock.Lock()
-		state, ok = f.instanceStates[instance]
-		if !ok || state == nil {
-			state = &instanceState{}
-			f.instanceStates[instance] = state
+		if state, ok := f.instanceStates[instance]; ok {
+			delete(f.instanceStates, instance)
+			if state != nil {
+				f.add(-atomic.LoadInt32(&state.count))
+			}
 		}
 		f.lock.Unlock()
+		return false, -1, nil
 	}
 
+	// the state is looked up and updated under the same read lock, so that it
+	// can not be removed (which needs the write lock) in between
 	f.lock.RLock()
+	state, ok := f.instanceStates[instance]
+	if !ok || state == nil {
+		f.lock.RUnlock()
+
+		f.lock.Lock()
+		if s, ok := f.instanceStates[instance]; !ok || s == nil {
+			f.instanceStates[instance] = &instanceState{}
+		}
+		f.lock.Unlock()
+
+		f.lock.RLock()
+		state, ok = f.instanceStates[instance]
+		if !ok || state == nil {
+			// removed again by a concurrent cleanup, nothing is counted
+			f.lock.RUnlock()
+			return false, 0, nil
+		}
+	}
 	defer f.lock.RUnlock()
 
 	if requestId > 0 {
@@ -104,9 +115,15 @@ func (f *globalMaxInflight) SetState(instance string, requestId int64, current i
 	overflowed := f.add(delta)
 
 	if overflowed > 0 {
-		atomic.AddInt32(&state.count, -delta)
-		f.add(-delta)
-		return false, old, nil
+		if delta > 0 {
+			// only an increase is rolled back
+			atomic.AddInt32(&state.count, -delta)
+			f.add(-delta)
+			return false, old, nil
+		}
+		// a report that lowers the count of an instance is always applied,
+		// even if the total still exceeds the limit, e.g. after it was lowered
+		return false, current, nil
 	}
 	if overflowed == 0 && current > 0 {
 		return false, current, nil
